@@ -12,9 +12,9 @@ Definition Iown (s : st) : Prop :=
   (wlocked (wpc s) = true -> owner s = Some W) /\
   (forall t, t <> W -> clocked (cp (cl s t)) = true -> owner s = Some t).
 
-Lemma Iown_step : forall c s t e s', Iown s -> step c s t e = Some s' -> Iown s'.
+Lemma Iown_step : forall c s t e s', selfunlock c = true -> Iown s -> step c s t e = Some s' -> Iown s'.
 Proof.
-  intros c s t e s' (I1 & I2 & I3) H. unfold Iown.
+  intros c s t e s' Hsu (I1 & I2 & I3) H. unfold Iown.
   scases H t; simpl in *; (split; [|split]);
     try (intros u Hu; try discriminate Hu; try (inversion Hu; subst u; clear Hu));
     try (intros Hw; try discriminate Hw);
@@ -90,11 +90,12 @@ Proof.
 Qed.
 
 Record LInv (c : cfg) (s : st) : Prop := mkLInv {
-  l_inv : Inv c s; l_own : Iown s; l_wc : Iwc s; l_wq : Iwq s; l_w2bs : Iw2bs s; l_shw : Ishw s; l_fn : Ifn s; l_fn3 : Ifn3 s }.
+  l_su : selfunlock c = true; l_inv : Inv c s; l_own : Iown s; l_wc : Iwc s; l_wq : Iwq s; l_w2bs : Iw2bs s; l_shw : Ishw s; l_fn : Ifn s; l_fn3 : Ifn3 s }.
 
-Lemma LInv_init : forall c, LInv c init.
+Lemma LInv_init : forall c, selfunlock c = true -> LInv c init.
 Proof.
-  intros c. constructor.
+  intros c Hsu. constructor.
+  - exact Hsu.
   - apply Inv_init.
   - split; [intros t H; discriminate H|]. split; [intros H; discriminate H|intros t _ H; discriminate H].
   - intros v [].
@@ -108,6 +109,7 @@ Qed.
 Lemma LInv_step : forall c s t e s', LInv c s -> step c s t e = Some s' -> LInv c s'.
 Proof.
   intros c s t e s' [] H. constructor.
+  - assumption.
   - eapply Inv_step; eauto.
   - eapply Iown_step; eauto.
   - eapply Iwc_step; eauto.
@@ -118,8 +120,8 @@ Proof.
   - eapply Ifn3_step; eauto.
 Qed.
 
-Lemma LInv_R : forall c s, R c s -> LInv c s.
-Proof. intros c s H. eapply invariant_reachable; [apply LInv_init|apply LInv_step|exact H]. Qed.
+Lemma LInv_R : forall c s, selfunlock c = true -> R c s -> LInv c s.
+Proof. intros c s Hsu H. eapply invariant_reachable; [apply LInv_init; exact Hsu|apply LInv_step|exact H]. Qed.
 
 (* ---- a ready thread is obliged ---- *)
 Ltac own_facts L :=
@@ -138,6 +140,7 @@ Proof.
     + destruct (canunblock c s) eqn:Ec, (is_nil (queue s)) eqn:Eq, (shut s) eqn:Es; simpl;
         rewrite ?Ec, ?Eq, ?Es; simpl; split; try reflexivity; try discriminate.
     + split; [|discriminate]. apply negb_true_iff. apply memb_false. exact Hn.
+    + rewrite (l_su _ _ L). destruct (shut s); split; try reflexivity; discriminate.
   - unfold cnext, cstep, must. destruct (cp (cl s t)) eqn:Ec; try contradiction; simpl;
       try (rewrite Hr); try (destruct Hr as [Hr Hn]; rewrite Hr); simpl;
       try (rewrite (O3 t Nw) by (rewrite Ec; reflexivity); simpl; rewrite ?Nat.eqb_refl; simpl);
@@ -266,29 +269,30 @@ Proof.
   unfold mdeq. destruct (frame_w c s u e s' H Hu) as [Ew _]. rewrite Ew. lia.
 Qed.
 
-Lemma mdeq_worker : forall c s e s' k, Inv c s -> step c s W e = Some s' -> In k (queue s) ->
+Lemma mdeq_worker : forall c s e s' k, Inv c s -> step c s W e = Some s' -> is_call e = false -> In k (queue s) ->
   ~ In k (queue s') \/ mdeq k s' < mdeq k s.
 Proof.
-  intros c s e s' k V H Hk. assert (ND := queue_NoDup c s V). unfold mdeq.
-  unfold step in H; change (W =? W) with true in H; cbv iota in H; wcases H; simpl in *; rw_facts; simpl in *; try contradiction; try (right; lia).
+  intros c s e s' k V H Hnc Hk. assert (ND := queue_NoDup c s V). unfold mdeq.
+  unfold step in H; change (W =? W) with true in H; cbv iota in H; wcases H; simpl in *; rw_facts; simpl in *; try contradiction;
+    try discriminate Hnc; try (right; lia).
   destruct (ahead_pop k t l ND Hk) as [A|[A B]]; [left; exact A|right]. simpl in B. lia.
 Qed.
 
-Lemma mdeq_any : forall c s u e s' k, Inv c s -> step c s u e = Some s' -> In k (queue s) ->
+Lemma mdeq_any : forall c s u e s' k, Inv c s -> step c s u e = Some s' -> (u = W -> is_call e = false) -> In k (queue s) ->
   ~ In k (queue s') \/ mdeq k s' <= mdeq k s.
 Proof.
-  intros c s u e s' k V H Hk. destruct (Nat.eq_dec u W) as [->|N].
-  - destruct (mdeq_worker c s e s' k V H Hk) as [A|A]; [left; exact A|right; lia].
+  intros c s u e s' k V H Hnc Hk. destruct (Nat.eq_dec u W) as [->|N].
+  - destruct (mdeq_worker c s e s' k V H (Hnc eq_refl) Hk) as [A|A]; [left; exact A|right; lia].
   - eapply mdeq_other; eauto.
 Qed.
 
 (* ---- the worker finishes the task it holds ---- *)
-Lemma held_step : forall c s e s' k, step c s W e = Some s' -> In k (held s) ->
+Lemma held_step : forall c s e s' k, step c s W e = Some s' -> is_call e = false -> In k (held s) ->
   In k (done s') \/ (In k (held s') /\ hrank (wpc s') < hrank (wpc s)).
 Proof.
-  intros c s e s' k H Hk. unfold held in *.
+  intros c s e s' k H Hnc Hk. unfold held in *.
   unfold step in H; change (W =? W) with true in H; cbv iota in H; wcases H; simpl in *; rw_facts; simpl in *;
-    try contradiction; try (right; split; [assumption|lia]).
+    try contradiction; try discriminate Hnc; try (right; split; [assumption|lia]).
   left. apply in_or_app. right. destruct Hk as [<-|[]]. left. reflexivity.
 Qed.
 
@@ -317,11 +321,12 @@ Proof.
     rewrite Hre in *; simpl in *; congruence.
 Qed.
 
-Lemma exit_worker : forall c s e s', LInv c s -> shut s = true -> step c s W e = Some s' -> mexit s' < mexit s.
+Lemma exit_worker : forall c s e s', LInv c s -> shut s = true -> step c s W e = Some s' -> is_call e = false ->
+  mexit s' < mexit s.
 Proof.
-  intros c s e s' L Hs H. unfold mexit.
+  intros c s e s' L Hs H Hnc. unfold mexit.
   unfold step in H; change (W =? W) with true in H; cbv iota in H; wcases H; simpl in *; rw_facts; simpl in *;
-    try congruence; try lia;
+    try congruence; try discriminate Hnc; try lia;
     try (destruct (queue s); simpl; lia);
     try (destruct (queue s); [congruence|simpl; lia]);
     try (destruct l; simpl; lia).
@@ -364,11 +369,15 @@ Section Live.
   Hypothesis Hx : is_sexec c x.
   Hypothesis Hf : sfair c x.
   Hypothesis H0 : R c (st_at st x 0).
+  (* the self-thread guard of iwstw_shutdown releases the mutex (fixes/exec-stw-self-shutdown-unlock.diff) *)
+  Hypothesis Hsu : selfunlock c = true.
+  (* task bodies terminate: they are opaque, in particular they do not keep calling iwstw_shutdown on their own executor *)
+  Hypothesis Hns : forall i e, lab st x i = Some (W, e) -> is_call e = false.
 
   Notation "'S_' i" := (st_at st x i) (at level 9, i at level 9).
 
   Lemma LI : forall i, LInv c (S_ i).
-  Proof. intros i. apply LInv_R. apply (exec_reachable st (step c) init x Hx H0). Qed.
+  Proof. intros i. apply LInv_R; [exact Hsu|]. apply (exec_reachable st (step c) init x Hx H0). Qed.
 
   Lemma RI : forall i, R c (S_ i).
   Proof. intros i. apply (exec_reachable st (step c) init x Hx H0). Qed.
